@@ -151,6 +151,10 @@ def tasks_c20(tier, seed):
     return seq("c20", tier, shards=16)
 
 
+def tasks_c12(tier, seed):
+    return seq("c12", tier, shards=12)
+
+
 def tasks_c13(tier, seed):
     return seq("c13", tier, shards=16) + IX_TASKS(tier)
 
@@ -238,6 +242,10 @@ PLANS = {
             "assumptions": ["reference RES client: change sets/deletes keys, add/remove need in-range indexes, create/delete trigger a re-fetch", "mutations go through mockstore (badgerstore shares the OnChange contract checked by C11)"]},
     "C20": {"tasks": tasks_c20, "level": "model_checking",
             "assumptions": ["an add event on a missing collection without default starts from the empty collection (as the code documents)", "deleting a resource that is not stored is unspecified: only 'storage unchanged' is required"]},
+    "C12": {"tasks": tasks_c12, "level": "fault_enumeration",
+            "assumptions": ["a process kill preserves every completed syscall (page cache survives); power loss is not modelled",
+                            "the recorded syscall log is complete: refused if a database file is mapped writable and shared",
+                            "BadgerDB recovery (Truncate) is trusted to recover the longest valid log prefix"]},
     "C03": {"tasks": tasks_c03, "level": "model_checking",
             "assumptions": ["Shutdown is called from outside callbacks", "envnats models the connection"]},
 }
@@ -277,6 +285,9 @@ MANIFEST_TEXT = {
     "C11": {"engine": E1, "technique": "bounded-exhaustive operation histories against a map model + stateless model checking of 2-3 contending threads with a porcupine linearizability check on every execution",
             "level": "Sequential: every well-formed history up to the depth bound for mockstore and four badgerstore configurations, compared step by step with a Go map and the expected callback list. Concurrent: every interleaving (preemption bound 2, 3 thorough) of three small transaction programs on colliding ids; each execution's call/return history is checked with porcupine against a per-id register model, plus a lock-exclusion monitor, callback thread/count/chain checks and the final content.",
             "note": "BadgerDB internals run uninstrumented; binary-marshalled value types are not exercised (see DESIGN.md)."},
+    "C12": {"engine": "crashx", "technique": "exhaustive crash-image enumeration of recorded write histories: every syscall-boundary prefix and torn-write cut of each workload's strace log is materialised, reopened with the real BadgerDB and judged against the acknowledgement log",
+            "level": "Twelve recorded runs (3 workloads x prefix set/empty x with/without QueryStore) of the real badgerstore; for every prefix of the recorded file-operation log and every torn cut of every write, the image is reopened and checked: content equals the acknowledged state or that with the in-flight call applied, a further Init seeds exactly once, and after RebuildIndexes every index query equals a scan of the stored values.",
+            "note": "One recorded history per configuration (not all histories); kill points are all syscall boundaries of that history plus byte-level torn writes."},
     "C13": {"engine": "seq", "technique": "bounded-exhaustive mutation histories on the real badgerstore + QueryStore under the scheduler, every query compared with a sorted/filtered/windowed scan of a model map; Flush race explored by the scheduler",
             "level": "Every mutation history up to the depth bound over 3 ids and 8 key vectors (two indexes, nil keys), with and without store prefix; 16 basic queries after every history and the full 1344-query set on every distinct content of depth<=2, compared with the reference scan; plus an interleaving exploration of mutations racing with Flush and Query.",
             "note": "taskqueue is a scheduler object; BadgerDB runs uninstrumented."},
